@@ -11,7 +11,12 @@ func TestAdvPool(t *testing.T) {
 	seen := map[string]bool{}
 	for _, w := range AdvPool() {
 		count[w.Class]++
-		if !ValidWGSLName(w.Text) {
+		if w.Class == "wgsl-builtin-fn" {
+			// predeclared on purpose: only drawn for function declarations, which may shadow them
+			if !predecl[w.Text] {
+				t.Errorf("%q is not predeclared", w.Text)
+			}
+		} else if !ValidWGSLName(w.Text) {
 			t.Errorf("%q is not a valid WGSL name", w.Text)
 		}
 		seen[w.Text] = true
